@@ -54,6 +54,7 @@ class OrderInfer(ast.NodeVisitor):
         self.env = {}
         self.sites = []
         self.returns_tdict = False
+        self.returns_set = False
         for a in f.node.args.args + f.node.args.kwonlyargs:
             if ann_is_set(a.annotation):
                 self.env[a.arg] = "set"
@@ -121,6 +122,16 @@ class OrderInfer(ast.NodeVisitor):
     def site(self, node, what):
         self.sites.append((what, " ".join(u(node).split())[:100], node))
 
+    def is_ksetdict(self, e):
+        """A dict whose KEYS are builtin sets (ordered itself, but each key is an unordered collection)."""
+        if isinstance(e, ast.Dict):
+            return any(k is not None and self.is_set(k) for k in e.keys)
+        if isinstance(e, ast.Name):
+            return self.env.get(e.id) == "ksetdict"
+        if isinstance(e, ast.Call) and isinstance(e.func, ast.Attribute) and e.func.attr == "copy":
+            return self.is_ksetdict(e.func.value)
+        return False
+
     def visit_Assign(self, n):
         self.generic_visit(n)
         for t in n.targets:
@@ -129,8 +140,14 @@ class OrderInfer(ast.NodeVisitor):
                     self.env[t.id] = "set"
                 elif self.is_tdict(n.value):
                     self.env[t.id] = "tdict"
+                elif self.is_ksetdict(n.value):
+                    self.env[t.id] = "ksetdict"
+                elif self.env.get(t.id) == "ksetdict" and isinstance(n.value, ast.Dict) and not n.value.keys:
+                    pass  # re-initialised to {} and filled again below: keep the key type (flow-insensitive)
                 else:
                     self.env.pop(t.id, None)
+            elif isinstance(t, ast.Subscript) and isinstance(t.value, ast.Name) and self.is_set(t.slice):
+                self.env[t.value.id] = "ksetdict"
 
     def visit_AnnAssign(self, n):
         self.generic_visit(n)
@@ -140,6 +157,14 @@ class OrderInfer(ast.NodeVisitor):
     def visit_For(self, n):
         if self.unordered(n.iter):
             self.site(n.iter, "for")
+        # keys of a dict keyed by sets are sets
+        it = n.iter
+        if isinstance(it, ast.Call) and isinstance(it.func, ast.Attribute) and it.func.attr in ("items", "keys") and not it.args and self.is_ksetdict(it.func.value):
+            k = n.target.elts[0] if it.func.attr == "items" and isinstance(n.target, ast.Tuple) and n.target.elts else n.target if it.func.attr == "keys" else None
+            if isinstance(k, ast.Name):
+                self.env[k.id] = "set"
+        elif self.is_ksetdict(it) and isinstance(n.target, ast.Name):
+            self.env[n.target.id] = "set"
         self.generic_visit(n)
 
     def comp(self, n):
@@ -167,6 +192,8 @@ class OrderInfer(ast.NodeVisitor):
     def visit_Return(self, n):
         if n.value is not None and self.is_tdict(n.value):
             self.returns_tdict = True
+        if n.value is not None and self.is_set(n.value):
+            self.returns_set = True  # whatever the annotation says
         self.generic_visit(n)
 
     def visit_FunctionDef(self, n):
@@ -195,7 +222,7 @@ def order_sites(ix: SourceIndex, reach):
     ret_tdict = set()
     sites = []
     for _ in range(5):
-        before = set(ret_tdict)
+        before = set(ret_tdict) | {"set:" + x for x in ret_set}
         sites = []
         for q in sorted(reach):
             f = ix.funcs[q]
@@ -203,9 +230,11 @@ def order_sites(ix: SourceIndex, reach):
             inf.visit(f.node)
             if inf.returns_tdict:
                 ret_tdict.add(f.name)
+            if inf.returns_set:
+                ret_set.add(f.name)
             for what, text, node in inf.sites:
                 sites.append((q, what, text, node))
-        if ret_tdict == before:
+        if set(ret_tdict) | {"set:" + x for x in ret_set} == before:
             break
     return sites, ret_tdict
 
@@ -390,35 +419,92 @@ def rule_hash_order(ctx, ix, reach):
 
 
 def rule_stable_sets(ctx, ix):
-    ctx.rule("C15.stable-sets", "StableSet/StableFrozenSet iterate their insertion-ordered store", min_instances=4)
+    """StableSet / StableFrozenSet are evaluated abstractly (symeval) on item sequences covering every
+    equality pattern up to length 4 (the classes touch items only through hash/equality, so the pattern is
+    all that matters); item values are chosen so that a builtin set would iterate them in another order
+    than they were inserted.  Iteration, reversed() and | must follow first-insertion order."""
+    import itertools
+
+    from . import symeval as S
+
+    ctx.rule("C15.stable-sets", "StableSet/StableFrozenSet iterate in first-insertion order (abstract evaluation over all equality patterns up to length 4)", min_instances=4)
+    vals = (3, 1, 2, 0)  # a builtin set of these iterates 0,1,2,3
+
+    def patterns(n):
+        # restricted growth strings = equality patterns
+        def rec(prefix, mx):
+            if len(prefix) == n:
+                yield tuple(prefix)
+                return
+            for k in range(mx + 2):
+                yield from rec(prefix + [k], max(mx, k))
+
+        if n == 0:
+            yield ()
+        else:
+            yield from rec([0], 0)
+
+    def first_occurrence(seq):
+        out = []
+        for x in seq:
+            if x not in out:
+                out.append(x)
+        return out
+
     for cls in ("StableSet", "StableFrozenSet"):
-        for m, want in (("__iter__", "return iter(self._items)"), ("__reversed__", None), ("__or__", None), ("__repr__", None)):
-            q = f"tensora._stable_set.{cls}.{m}"
-            if q not in ix.funcs:
-                continue
-            ctx.instance("C15.stable-sets")
-            src = u(ix.funcs[q].node)
-            key = f"_stable_set.py:{cls}.{m}"
-            if "self._set" in src or "other._set" in src:
-                ctx.fail("C15.stable-sets", key, "iterates / combines the hash-ordered _set instead of the insertion-ordered _items")
-            elif want and want not in src:
-                ctx.fail("C15.stable-sets", key, f"`{want}` not found")
-            else:
-                ctx.ok("C15.stable-sets", key)
-    init = u(ix.func("tensora._stable_set.StableFrozenSet.__init__").node)
-    ctx.instance("C15.stable-sets")
-    if "self._items = tuple(unique_items)" in init and "unique_items.append(item)" in init:
-        ctx.ok("C15.stable-sets", "_stable_set.py:StableFrozenSet.__init__")
-    else:
-        ctx.fail("C15.stable-sets", "_stable_set.py:StableFrozenSet.__init__", "_items is not the de-duplicated argument order")
-    # users: compressed_dimensions returns StableFrozenSet; SourceBuilder dependencies StableSet
-    ctx.instance("C15.stable-sets")
-    q = "tensora.iteration_graph.iteration_graph.IterationNode.compressed_dimensions"
-    src = u(ix.func(q).node)
-    if "return StableFrozenSet(*(leaf.tensor.id for leaf in self.context.sparse_leaves))" in src:
-        ctx.ok("C15.stable-sets", "iteration_graph/iteration_graph.py:IterationNode.compressed_dimensions")
-    else:
-        ctx.fail("C15.stable-sets", "iteration_graph/iteration_graph.py:IterationNode.compressed_dimensions", "sub-graph keys (whose order is the order of emitted loops) are not an insertion-ordered StableFrozenSet")
+        meths = {f.name: f.node for q, f in ix.funcs.items() if q.rsplit(".", 1)[0] == f"tensora._stable_set.{cls}"}
+        if "__init__" not in meths or "__iter__" not in meths:
+            raise AnalysisError(f"anchor vanished: {cls}.__init__/__iter__")
+        G = {"dict": S.Obj("dictclass", fromkeys=lambda it, v=None: dict.fromkeys(it, v))}
+
+        def make(*items, _cls=cls, _meths=meths, _G=G):
+            o = S.Obj(_cls, __methods__=_meths)
+            outs = list(S.explore(_meths["__init__"], [o, *items], globals_=_G))
+            if len(outs) != 1 or outs[0][1][0] != "return":
+                raise S.Uninterpretable(f"{_cls}.__init__: {outs[0][1] if outs else 'no outcome'}")
+            return o
+
+        G[cls] = make
+
+        def run(o, m, *args, _meths=meths, _G=G):
+            outs = list(S.explore(_meths[m], [o, *args], globals_=_G))
+            if len(outs) != 1 or outs[0][1][0] != "return":
+                raise S.Uninterpretable(f"{m}: {outs[0][1] if outs else 'no outcome'}")
+            return outs[0][1][1]
+
+        def listing(o):
+            it = run(o, "__iter__")
+            if isinstance(it, S.Obj) and it.tag == "iterator":
+                return list(it.attrs["items"])
+            return list(it)
+
+        problems = {}
+        n = 0
+        for ln in range(0, 5):
+            for pat in patterns(ln):
+                items = [vals[k] for k in pat]
+                n += 1
+                try:
+                    o = make(*items)
+                    got = listing(o)
+                    if got != first_occurrence(items):
+                        problems.setdefault("iteration order is not first-insertion order (hash order of a builtin set shows through)", (items, got))
+                    if "__reversed__" in meths:
+                        r_ = listing(run(o, "__reversed__"))
+                        if r_ != list(reversed(first_occurrence(items))):
+                            problems.setdefault("reversed() is not the reverse of the insertion order", (items, r_))
+                    if "__or__" in meths and ln <= 3:
+                        for pat2 in patterns(min(ln, 2)):
+                            items2 = [vals[(k + 1) % 4] for k in pat2]
+                            u_ = listing(run(o, "__or__", make(*items2)))
+                            if u_ != first_occurrence(items + items2):
+                                problems.setdefault("a | b does not keep left-then-right insertion order", (items, items2, u_))
+                except S.Uninterpretable as ex:
+                    problems.setdefault(f"not interpretable: {ex}"[:120], items)
+        ctx.instance("C15.stable-sets", n)
+        for why, ex in problems.items():
+            ctx.fail("C15.stable-sets", f"_stable_set.py:{cls}:{why[:80]}", f"{why}; e.g. {ex}")
+        ctx.ok("C15.stable-sets", f"_stable_set.py:{cls}", n=max(0, n - len(problems)))
 
 
 IMPURE_CALLS = re.compile(
@@ -499,42 +585,81 @@ def rule_cache_key(ctx, ix):
     import_tensora(ctx.src)
     ctx.rule("C15.cache-key", "cache key (Problem, backend) distinguishes every pair of different problems", min_instances=8)
     # lru_cache on cachable_tensor_method(problem, backend)
-    f = ix.func("tensora.compile._porcelain.cachable_tensor_method").node
+    from .core import cached_factory
+
+    cf = cached_factory(ix)
+    f = cf.node
     ctx.instance("C15.cache-key")
-    decs = [u(d) for d in f.decorator_list]
     params = [a.arg for a in f.args.args]
-    if decs in (["lru_cache"], ["lru_cache()"], ["functools.lru_cache"], ["cache"]) or (len(decs) == 1 and decs[0].startswith("lru_cache(")):
-        if params == ["problem", "backend"] and "TensorMethod(problem, backend=backend)" in u(f):
-            ctx.ok("C15.cache-key", "compile/_porcelain.py:cachable_tensor_method")
-        else:
-            ctx.fail("C15.cache-key", "compile/_porcelain.py:cachable_tensor_method", f"cached function takes {params}: something that influences the kernel is not part of the key")
+    # everything the cached function reads is a parameter (= part of the key): its body builds a
+    # TensorMethod from its parameters only
+    import builtins
+
+    free = {n.id for n in ast.walk(f) if isinstance(n, ast.Name) and isinstance(n.ctx, ast.Load)} - set(params) - {n.id for n in ast.walk(f) if isinstance(n, ast.Name) and isinstance(n.ctx, ast.Store)}
+    free = {n for n in free if not hasattr(builtins, n) and n not in ("TensorMethod", "BackendCompiler", "lru_cache", "cache", "functools", "Problem")}
+    builds = [c for c in ast.walk(f) if isinstance(c, ast.Call) and u(c.func) == "TensorMethod"]
+    uses_all = all(any(isinstance(n, ast.Name) and n.id == p_ for b_ in builds for n in ast.walk(b_)) for p_ in params)
+    if len(params) == 2 and builds and uses_all and not free and not f.args.kwonlyargs and not f.args.vararg and not f.args.kwarg:
+        ctx.ok("C15.cache-key", f"compile/_porcelain.py:{cf.name}")
     else:
-        ctx.fail("C15.cache-key", "compile/_porcelain.py:cachable_tensor_method", f"decorators {decs}")
-    # all callers pass (problem, backend)
+        ctx.fail("C15.cache-key", f"compile/_porcelain.py:{cf.name}", f"cached function takes {params} and reads {sorted(free)}: something that influences the kernel is not part of the key")
+    # all callers pass (problem, backend) positionally
     for q, g in ix.funcs.items():
         for call in ix.calls_in(g):
-            if u(call.func) == "cachable_tensor_method":
+            if u(call.func) == cf.name:
                 ctx.instance("C15.cache-key")
                 key = f"{ix.rel(g.module)}:{g.name}:{u(call)}"
-                if len(call.args) == 2 and u(call.args[0]) == "problem" and not call.keywords:
+                if len(call.args) == 2 and not call.keywords:
                     ctx.ok("C15.cache-key", key)
                 else:
                     ctx.fail("C15.cache-key", key, "cache is not keyed by (problem, backend)")
-    # Problem.__eq__ / __hash__
-    eq = u(ix.func("tensora.problem.Problem.__eq__").node)
-    hs = u(ix.func("tensora.problem.Problem.__hash__").node)
+    # Problem.__eq__ / __hash__, evaluated abstractly: equal iff same assignment and the same formats IN THE SAME ORDER
+    # (the kernel's parameter order follows the order of the format table); equal problems hash equally
+    from . import symeval as S
+
+    eqn = ix.func("tensora.problem.Problem.__eq__").node
+    hsn = ix.func("tensora.problem.Problem.__hash__").node
     ctx.instance("C15.cache-key")
-    ok_eq = "self.assignment == other.assignment and tuple(self.formats.items()) == tuple(other.formats.items())" in eq and "isinstance(other, Problem)" in eq
-    ok_hash = "return hash((self.assignment, tuple(self.formats.items())))" in hs
-    if ok_eq and ok_hash:
+    A1 = S.Obj("Assignment", __structural__=True, text="a")
+    A1b = S.Obj("Assignment", __structural__=True, text="a")
+    A2 = S.Obj("Assignment", __structural__=True, text="b")
+    F1, F2 = S.Obj("Format", __structural__=True, text="ds"), S.Obj("Format", __structural__=True, text="sd")
+
+    def P(a, items):
+        return S.Obj("Problem", assignment=a, formats=dict(items))
+
+    G = {"Problem": S.Obj("Class", name="Problem"), "hash": lambda x: ("HASH", x)}
+    cases = [
+        ("identical content", P(A1, [("x", F1), ("y", F2)]), P(A1b, [("x", F1), ("y", F2)]), True),
+        ("same formats in another order", P(A1, [("x", F1), ("y", F2)]), P(A1, [("y", F2), ("x", F1)]), False),
+        ("different assignment", P(A1, [("x", F1)]), P(A2, [("x", F1)]), False),
+        ("different format of one tensor", P(A1, [("x", F1)]), P(A1, [("x", F2)]), False),
+        ("one more format", P(A1, [("x", F1)]), P(A1, [("x", F1), ("y", F2)]), False),
+    ]
+    problems = []
+    for label, p1, p2, want in cases:
+        outs = list(S.explore(eqn, [p1, p2], globals_=G))
+        if len(outs) != 1 or outs[0][1][0] != "return":
+            problems.append(f"__eq__ not interpretable ({label}): {outs[0][1] if outs else None}")
+            continue
+        got = outs[0][1][1]
+        if bool(got) != want or got is S.NOT_IMPLEMENTED:
+            problems.append(f"{label}: __eq__ gives {got!r}, expected {want}" + (" (plain dict equality ignores order: kernels with different parameter orders would share a cache entry)" if "order" in label else ""))
+        if want:
+            h = [list(S.explore(hsn, [p_], globals_=G)) for p_ in (p1, p2)]
+            if any(len(x) != 1 or x[0][1][0] != "return" for x in h):
+                problems.append("__hash__ not interpretable")
+            else:
+                ev_ = S.Evaluator(hsn, {}, G)
+                if not ev_.truth(ev_.equal(h[0][0][1][1], h[1][0][1][1])):
+                    problems.append("equal problems hash differently (cache misses; a second kernel for the same problem)")
+    outs = list(S.explore(eqn, [P(A1, [("x", F1)]), S.Obj("Other")], globals_=G))
+    if not (len(outs) == 1 and outs[0][1][0] == "return" and (outs[0][1][1] is S.NOT_IMPLEMENTED or outs[0][1][1] is False)):
+        problems.append("comparison with a non-Problem is not NotImplemented/False")
+    if not problems:
         ctx.ok("C15.cache-key", "problem.py:Problem.__eq__/__hash__")
     else:
-        ctx.fail(
-            "C15.cache-key",
-            "problem.py:Problem.__eq__/__hash__",
-            "equality/hash do not use the assignment and the ORDERED tuple(formats.items()) (parameter order of the kernel follows dict order, "
-            "plain dict equality aliases different kernels)",
-        )
+        ctx.fail("C15.cache-key", "problem.py:Problem.__eq__/__hash__", "; ".join(problems))
     # classes reachable through the key: dataclass eq over all fields, or Enum
     from tensora.compile._tensor_method import BackendCompiler
     from tensora.expression import ast as sugar
